@@ -291,6 +291,18 @@ theorem ed_add_affine {a d x1 y1 x2 y2 : F}
   · field_simp
   · field_simp
 
+/-- the dedicated doubling is `add P P` up to the projective factor `−1`, on the curve -/
+theorem ed_double_eq_add_self {a d x y t z : F} (hC : a * x ^ 2 + y ^ 2 = z ^ 2 + d * t ^ 2) :
+    Gen.Edwards.double a x y z =
+      (-(Gen.Edwards.add a d x y t z x y t z).1, -(Gen.Edwards.add a d x y t z x y t z).2.1,
+       -(Gen.Edwards.add a d x y t z x y t z).2.2.1, -(Gen.Edwards.add a d x y t z x y t z).2.2.2) := by
+  simp only [Gen.Edwards.double, Gen.Edwards.add, Prod.mk.injEq]
+  refine ⟨?_, ?_, ?_, ?_⟩
+  · linear_combination (2 * x * y) * hC
+  · linear_combination (a * x ^ 2 - y ^ 2) * hC
+  · ring
+  · linear_combination (a * x ^ 2 + d * t ^ 2 + y ^ 2 - z ^ 2) * hC
+
 /-- NOT PROVED: (i) the denominators never vanish on the curve when `a` is a square and `d` is not
 (Bernstein–Lange completeness); (ii) associativity of the rational Edwards law.  Both are carried by
 the correspondence stream (small-order points, random triples through `msm`). -/
